@@ -155,14 +155,15 @@ def g4_replay(ck, run, res, emit, counts, stats):
         # (1) step by step on the real parser
         ev, rows_out, err = g4run.steps_of_row(ref, syms, W)
         case = {"kind": "row", "w": W, "ref": ref, "row": row, "syms": syms}
+        show = (lambda r: r) if W <= 40 else (lambda r: "changes@%r" % (t6.changes(r),))
         ck.case(1, ("row", label, tuple(ref), tuple(row), json.dumps(syms)) if len(syms) > 1 or ref != [1] * W else None)
         if err is not None:
-            capped(ck, counts, "decode:exception:" + err, "CCITTG4Parser raised %s on reference row %r + coding %r of row %r"
-                   % (err, ref, syms, row), case)
+            capped(ck, counts, "decode:exception:" + err, "CCITTG4Parser raised %s on reference row %s + coding %r of row %s (width %d)"
+                   % (err, show(ref), syms, show(row), W), case)
             continue
         if len(rows_out) != 2 or rows_out[0][1] != ref or rows_out[1][1] != row or [y for y, _ in rows_out] != [0, 1]:
-            capped(ck, counts, "rows:differ", "rows put out %r for reference row %r and coding %r of row %r (width %d)"
-                   % (rows_out, ref, syms, row, W), case)
+            capped(ck, counts, "rows:differ", "rows put out %s for reference row %s and coding %r of row %s (width %d)"
+                   % ([(y, show(b)) for y, b in rows_out], show(ref), syms, show(row), W), case)
             continue
         # the real parser after each symbol against the specification's reader state after the same prefix
         for j, e in enumerate(ev[:len(syms) - 1]):
@@ -435,12 +436,7 @@ def sample_image_trace(ck, counts):
 def validate_traces(ck, traces, counts):
     if not traces:
         raise MachineryError("no decoder traces recorded")
-    small = min((t for t in traces if len(t["ev"]) >= 4), key=lambda t: len(t["ev"]))
-    canary = json.loads(json.dumps(small))
-    canary["origin"] = "canary(" + canary["origin"] + ")"
-    j = next(i for i, e in enumerate(canary["ev"]) if e["m"] != "line")
-    canary["ev"][j]["pos"] += 1
-    canary["ev"] = canary["ev"][:j + 2]
+    canary = make_canary(traces)
     cfg = write_cfg(os.path.join(ck.tmp, "c19_trace.cfg"), spec="Spec", invariants=["PositionsOK"], deadlock=True)
     todo = [canary] + list(traces)
     tf = os.path.join(ck.tmp, "c19_traces.json")
@@ -477,7 +473,7 @@ def validate_traces(ck, traces, counts):
     return accepted, rejected, canary_rejected
 
 
-def direction_b(ck, counts, stats):
+def record_b(ck, counts, stats):
     rng = random.Random(ck.seed)
     traces, events = record_traces(ck, rng, counts)
     w, ev = sample_image_trace(ck, counts)
@@ -491,7 +487,44 @@ def direction_b(ck, counts, stats):
                        "w": w, "rows": rows, "ev": [{k: e[k] for k in ("m", "d", "n1", "n2", "pos", "col", "y", "ch")} for e in use]})
         events += len(use)
         stats["sample_image"] = {"width": w, "rows_decoded": len(lines), "rows_validated": len(rows), "events_validated": len(use)}
-    accepted, rejected, canary_rejected = validate_traces(ck, traces, counts)
+    return traces, events
+
+
+def fast_validate(ck, traces):
+    """runs in a worker thread while direction A is replayed: the canary alone, then all traces in one TLC run.
+    Only TLC is run here; all bookkeeping happens in the main thread."""
+    canary = make_canary(traces)
+    cfg = write_cfg(os.path.join(ck.tmp, "c19_trace_fast.cfg"), spec="Spec", invariants=["PositionsOK"], deadlock=True)
+    out = []
+    for name, batch in (("canary", [canary]), ("all", traces)):
+        tf = os.path.join(ck.tmp, "c19_traces_%s.json" % name)
+        with open(tf, "w") as f:
+            json.dump(batch, f)
+        out.append(run_tlc(TRACE_SPEC, cfg, workers=1, env={"TRACE_FILE": tf}, timeout=3600, heap="8g"))
+    return out
+
+
+def make_canary(traces):
+    small = min((t for t in traces if len(t["ev"]) >= 4), key=lambda t: len(t["ev"]))
+    canary = json.loads(json.dumps(small))
+    canary["origin"] = "canary(" + canary["origin"] + ")"
+    j = next(i for i, e in enumerate(canary["ev"]) if e["m"] != "line")
+    canary["ev"][j]["pos"] += 1
+    canary["ev"] = canary["ev"][:j + 2]
+    return canary
+
+
+def validate_b(ck, counts, stats, traces, events, fast):
+    res_canary, res_all = fast
+    ck.add_tlc(res_canary, "G4Trace: the corrupted canary trace alone")
+    if res_canary.ok or res_canary.violated != "deadlock":
+        raise MachineryError("the corrupted canary trace was accepted by G4Trace.tla - trace validation is vacuous")
+    if res_all.ok:
+        ck.add_tlc(res_all, "G4Trace: validation of %d recorded decoder runs" % len(traces))
+        ck.traces += len(traces)
+        accepted, rejected, canary_rejected = len(traces), 0, True
+    else:       # some trace is rejected: go through them one rejection at a time for the report
+        accepted, rejected, canary_rejected = validate_traces(ck, traces, counts)
     stats["traces"] = {"recorded": len(traces), "accepted": accepted, "rejected": rejected, "events": events,
                        "canary_rejected": canary_rejected, "max_width": max(t["w"] for t in traces)}
     for t in traces[:2] + traces[-1:]:
@@ -552,13 +585,15 @@ def run(ck):
     runs = G4_RUNS[ck.tier]
     pcs = PC_RUNS[ck.tier]
     ncpu = os.cpu_count() or 4
-    with ThreadPoolExecutor(3 if ck.tier == "quick" else 3) as ex:
+    with ThreadPoolExecutor(4) as ex:
         wk = max(2, ncpu // 3)
         f_g4 = [ex.submit(g4_tlc, ck, r, wk) for r in runs]
         f_pc = [ex.submit(pc_tlc, ck, r, max(2, ncpu // 4)) for r in pcs]
         images_replay(ck, counts, stats, rng)           # real code only; runs while TLC works
         probes(ck, counts, stats)
-        phases["images_and_probes_done_at"] = round(time.time() - t0, 1)
+        traces, events = record_b(ck, counts, stats)
+        f_tr = ex.submit(fast_validate, ck, traces)
+        phases["images_probes_recording_done_at"] = round(time.time() - t0, 1)
         for r, f in zip(runs, f_g4):
             res, emit = f.result()
             t1 = time.time()
@@ -568,9 +603,10 @@ def run(ck):
             res, emit = f.result()
             pc_replay(ck, r, res, emit, counts, stats)
         phases["A_done_at"] = round(time.time() - t0, 1)
+        fast = f_tr.result()
     t1 = time.time()
-    direction_b(ck, counts, stats)
-    phases["B"] = round(time.time() - t1, 1)
+    validate_b(ck, counts, stats, traces, events, fast)
+    phases["B_validate_after_A"] = round(time.time() - t1, 1)
     ck.extra["phase_wall_s"] = phases
     ck.extra["c19"] = stats
     ck.extra["property_failures_by_key"] = counts
@@ -605,16 +641,29 @@ def replay(path):
         got, err = g4run.generic_prefix_decode(PC_CODES[case["code"]], "E", case["msg"], case["align"], data)
         print("decoded", got, "error", err)
         bad = err is not None or got != [it["s"] for it in case["msg"]]
-    elif kind == "probe":
+    elif kind in ("probe", "sample-image"):
         class _CK:
             seed = 0
-            def case(self, *a): pass
+            tier = "quick"
+            bad = False
+
+            def case(self, *a):
+                pass
+
+            def note(self, s):
+                print("NOTE:", s)
+
+            def is_known(self, k):
+                return False
+
             def violation(self, key, what, rp=None):
                 print(key, what)
                 self.bad = True
         c = _CK()
-        c.bad = False
-        probes(c, {}, {})
+        if kind == "probe":
+            probes(c, {}, {})
+        else:
+            sample_image_trace(c, {})
         bad = c.bad
     else:
         print("this replay file records a rejected trace / TLC counterexample; re-run bin/check C19 to re-validate")
